@@ -9,7 +9,7 @@
     Only property theorems here; each is closed by [exact] of a lemma of Proofs/C12_conv.v. *)
 Require SPP.Props.C12_dft.   (* the DFT satisfies the assumed laws: stated in Props/C12_dft.v, required here so that it is part of this check's cone *)
 From Coq Require Import ZArith List Bool.
-Require Import SPP.Base.Rt SPP.Model.C12_np SPP.Model.C12_conv SPP.Gen.FftOps SPP.Proofs.C12_conv.
+Require Import SPP.Base.Rt SPP.Model.C12_np SPP.Model.C12_conv SPP.Gen.FftOps SPP.Proofs.C12_conv SPP.Proofs.C12_wrap.
 Import ListNotations.
 Open Scope Z_scope.
 
@@ -85,6 +85,79 @@ Theorem C12_form_mspec_spec : forall sqrtf fspec, length (form_mspec_run sqrtf f
     sqrtf (fst (nth i fspec d) * fst (nth i fspec d) + snd (nth i fspec d) * snd (nth i fspec d)).
 Proof. exact form_mspec_spec. Qed.
 Print Assumptions C12_form_mspec_spec.
+
+(** which form the CURRENT source of FourierSeries.ifft has is a regenerated definition, [fs_ifft_passes_length] (Gen/FftOps.v: does
+    the call hand a length to the inverse), and what either value means for the regenerated [fs_ifft_run] is proved, not probed *)
+Theorem C12_ifft_flag_spec :
+  if fs_ifft_passes_length then (forall F s h, fs_ifft_run F s h = ifft_given_len F s h)
+  else (forall F s h, fs_ifft_run F s h = ifft_default_len F s h).
+Proof. exact fs_ifft_flag_spec. Qed.
+Print Assumptions C12_ifft_flag_spec.
+
+(** FourierSeries.ifft is the regenerated wrapper kernels.nb_irfft called with header.nsamples, or with no length (NumPy's default
+    2 (bins - 1), regenerated with the wrapper) *)
+Theorem C12_ifft_is_wrapper : forall F s h,
+  fs_ifft_run F s h = nb_irfft_run F s (if fs_ifft_passes_length then Some h else None) /\
+  ifft_given_len F s h = nb_irfft_run F s (Some h) /\ ifft_default_len F s h = nb_irfft_run F s None.
+Proof. intros F s h. split; [apply fs_ifft_via_wrapper|apply ifft_forms_are_wrapper]. Qed.
+Print Assumptions C12_ifft_is_wrapper.
+
+(** the round trip rfft -> ifft through the current source at FULL strength, for every length, with no hypothesis on the source:
+    flag set -> the series zero-padded to the transform length, accepted by TimeSeries, for every length;
+    flag clear -> that for even transform lengths, and N - 1 samples (rejected, not the padded series) for every odd one *)
+Theorem C12_rfft_ifft_pad_live : forall F, fft_laws F -> forall x, 1 <= len x ->
+  let '(s, h) := ts_rfft_run F x in
+  if fs_ifft_passes_length
+  then fs_ifft_run F s h = pad x (fft_good_size F (len x)) /\ ts_check (fs_ifft_run F s h) h = true
+  else (Z.even (fft_good_size F (len x)) = true -> fs_ifft_run F s h = pad x (fft_good_size F (len x)) /\ ts_check (fs_ifft_run F s h) h = true) /\
+       (Z.odd (fft_good_size F (len x)) = true -> len (fs_ifft_run F s h) = fft_good_size F (len x) - 1 /\ ts_check (fs_ifft_run F s h) h = false /\
+                                                  fs_ifft_run F s h <> pad x (fft_good_size F (len x))).
+Proof. exact rfft_ifft_roundtrip_live. Qed.
+Print Assumptions C12_rfft_ifft_pad_live.
+
+(** the compiled wrappers at the series' OWN length (no good-size padding; any length: prime, FFT-unfriendly):
+    nb_rfft(x) transforms at len(x) and has len(x)/2+1 bins; nb_irfft(nb_rfft(x, N), N) is x cropped / zero-padded to N *)
+Theorem C12_nb_rfft_default_length : forall F, fft_laws F -> forall x, 1 <= len x ->
+  nb_rfft_run F x None = nb_rfft_run F x (Some (len x)) /\ fft_slen F (nb_rfft_run F x None) = len x / 2 + 1.
+Proof. intros F L x Hx. split; [apply nb_rfft_default|]. rewrite nb_rfft_default. apply nb_rfft_bins; assumption. Qed.
+Print Assumptions C12_nb_rfft_default_length.
+
+Theorem C12_nb_roundtrip_given_length : forall F, fft_laws F -> forall x N, 1 <= N ->
+  nb_irfft_run F (nb_rfft_run F x (Some N)) (Some N) = pad x N.
+Proof. exact nb_roundtrip_given. Qed.
+Print Assumptions C12_nb_roundtrip_given_length.
+
+Theorem C12_nb_roundtrip_own_length : forall F, fft_laws F -> forall x, 1 <= len x ->
+  nb_irfft_run F (nb_rfft_run F x None) (Some (len x)) = x.
+Proof. exact nb_roundtrip_own_length. Qed.
+Print Assumptions C12_nb_roundtrip_own_length.
+
+(** the inverse left to its default length: x itself for every even length, one sample short (so not x) for every odd length *)
+Theorem C12_nb_roundtrip_default_length : forall F, fft_laws F -> forall x,
+  (1 <= len x -> Z.even (len x) = true -> nb_irfft_run F (nb_rfft_run F x None) None = x) /\
+  (Z.odd (len x) = true -> len (nb_irfft_run F (nb_rfft_run F x None) None) = len x - 1 /\ nb_irfft_run F (nb_rfft_run F x None) None <> x).
+Proof. intros F L x. split; [apply nb_roundtrip_default_even|apply nb_roundtrip_default_odd]; assumption. Qed.
+Print Assumptions C12_nb_roundtrip_default_length.
+
+(** a series correlated with ITSELF (t.correlate(t): both operands are one array): the autocorrelation at lags -(n-1) .. n-1.
+    (The model's arrays are values: that no operand is written to is checked by the oracle only.) *)
+Theorem C12_correlate_self : forall F, fft_laws F -> forall x, 1 <= len x -> correlate_run F x x = xcorr_list x x.
+Proof. exact correlate_self. Qed.
+Print Assumptions C12_correlate_self.
+
+(** non-vacuity / the cases the theorems speak about: a prime length (7) with both inverses, an even FFT-unfriendly length (14 = 2 x 7),
+    an odd one (default inverse one sample short), the live form of the current source, a self-correlation *)
+Example C12_example_wrappers :
+  nb_irfft_run (td_fft good5) (nb_rfft_run (td_fft good5) [1; 2; 3; 4; 5; 6; 7] None) (Some 7) = [1; 2; 3; 4; 5; 6; 7] /\
+  len (nb_irfft_run (td_fft good5) (nb_rfft_run (td_fft good5) [1; 2; 3; 4; 5; 6; 7] None) None) = 6 /\
+  nb_irfft_run (td_fft good5) (nb_rfft_run (td_fft good5) [1; 2; 3; 4; 5; 6; 7; 8; 9; 10; 11; 12; 13; 14] None) None
+    = [1; 2; 3; 4; 5; 6; 7; 8; 9; 10; 11; 12; 13; 14] /\
+  fft_slen (td_fft good5) (nb_rfft_run (td_fft good5) [1; 2; 3; 4; 5; 6; 7] None) = 4 /\
+  nb_irfft_run (td_fft good5) (nb_rfft_run (td_fft good5) [1; 2; 3] (Some 5)) (Some 5) = [1; 2; 3; 0; 0] /\
+  correlate_run (td_fft good5) [1; 2; 3] [1; 2; 3] = [3; 8; 14; 8; 3] /\
+  (let '(s, h) := ts_rfft_run (td_fft good5) [5; 6; 7] in
+   fs_ifft_run (td_fft good5) s h = (if fs_ifft_passes_length then [5; 6; 7] else [5; 6])).
+Proof. vm_compute. repeat split; reflexivity. Qed.
 
 (** non-vacuity: the assumed laws are satisfiable (time-domain instance), with good sizes of either parity *)
 Theorem C12_fft_laws_satisfiable : forall gs, (forall n, 1 <= n -> n <= gs n) -> fft_laws (td_fft gs).
